@@ -12,6 +12,8 @@ from __future__ import annotations
 import io
 import time
 
+import os
+
 import z3
 
 class _NotHandled:
@@ -169,6 +171,8 @@ class Ctx:
             return
         if self._check(z3.Not(prop)):
             raise Violation(what, self.solver.model(), self)
+        if SECOND["enabled"]:
+            second_opinion(self, prop, what)
 
     def fresh(self, name):
         self.fresh_id += 1
@@ -189,6 +193,49 @@ class Ctx:
                 self.solver.add(tobool_expr(r))
         self.model = m
         return out[0] if len(out) == 1 else out
+
+
+# ---- second solver (thorough tier): a sample of the discharged obligations is re-decided by other solver builds -------------
+SECOND = dict(enabled=os.environ.get("VERIF_SECOND_SOLVER") == "1", rate=float(os.environ.get("VERIF_SECOND_RATE", "0.004")),
+              cap=int(os.environ.get("VERIF_SECOND_CAP", "12")), stats={}, rng=None)
+SECOND_SOLVERS = (("z3-4.8.12", ["/usr/bin/z3", "-T:20"]), ("cvc5-1.0", ["cvc5", "--tlimit=20000"]))
+
+
+def second_opinion(ctx, prop, what):
+    """z3 (Python API) just answered unsat for path /\ not prop. Dump that query as SMT-LIB2 and ask the other installed
+    solvers. `sat` from any of them is a disagreement (reported as a harness error by the framework); unknown / timeout /
+    parse errors (z3-specific syntax) are counted as inconclusive samples."""
+    import random as _random
+    import subprocess
+    import tempfile
+
+    st = SECOND["stats"]
+    if SECOND["rng"] is None:
+        SECOND["rng"] = _random.Random(os.getpid())
+    if st.get("sampled", 0) >= SECOND["cap"] or SECOND["rng"].random() > SECOND["rate"]:
+        return
+    st["sampled"] = st.get("sampled", 0) + 1
+    s2 = z3.Solver()
+    s2.add(ctx.solver.assertions())
+    s2.add(z3.Not(prop))
+    text = s2.to_smt2()
+    with tempfile.NamedTemporaryFile("w", suffix=".smt2", delete=False) as f:
+        f.write(text)
+        path = f.name
+    try:
+        for name, cmd in SECOND_SOLVERS:
+            try:
+                out = subprocess.run(cmd + [path], capture_output=True, text=True, timeout=40).stdout
+            except Exception:  # noqa: BLE001 — timeout / missing binary
+                out = "timeout"
+            lines = [l.strip() for l in out.splitlines() if l.strip()]
+            verdict = "error" if any(l.startswith("(error") for l in lines) else (lines[0] if lines and lines[0] in ("sat", "unsat", "unknown") else "inconclusive")
+            key = "%s:%s" % (name, verdict)
+            st[key] = st.get(key, 0) + 1
+            if verdict == "sat":
+                st.setdefault("disagreements", []).append("%s answered sat where z3 %s answered unsat: %s" % (name, z3.get_version_string(), what[:120]))
+    finally:
+        os.unlink(path)
 
 
 class NativeCtx:
